@@ -1,4 +1,5 @@
 import CGV.Props.C16
+import CGV.Props.C16Run
 #print axioms CGV.C16.C16_complement_forward
 #print axioms CGV.C16.C16_complement_backward
 #print axioms CGV.C16.C16_complement_dollar
@@ -7,3 +8,8 @@ import CGV.Props.C16
 #print axioms CGV.C16.C16_node_set
 #print axioms CGV.C16.C16_canonical
 #print axioms CGV.C16.C16_valence
+#print axioms CGV.C16.C16_step_tree
+#print axioms CGV.C16.attach_conn
+#print axioms CGV.C16.C16_step
+#print axioms CGV.C16.C16_run
+#print axioms CGV.C16.cfgWFb_sound
